@@ -331,7 +331,7 @@ def gen_sem_cases(rng, gen, ctx, corpus, n_ast, n_edit, n_viol):
 UNSAFE_OPS = tuple('c(%s,' % b for b in V2_BUILTIN_FNS if b not in ('abs', 'sign'))
 
 
-def semantic_stream(c, world, cases, answers, rng):
+def semantic_stream(c, world, cases, answers, rng, lean_eval=None):
     """returns (findings, pending) — failing inputs decided by the reading, and model/code disagreements"""
     findings = 0; pending = []
     reader = world.reader; label = world.label
@@ -362,6 +362,16 @@ def semantic_stream(c, world, cases, answers, rng):
                     model_val = ('value', arr) if magnitude_ok(arr) else ('skip',)
             except (G.Degenerate, G.Reject, ZeroDivisionError, OverflowError):
                 model_val = ('skip',)
+            # the Lean tensor semantics `evalOps` (object of trace_sem / term_reading) on the same integer data
+            if lean_eval is not None and model_val[0] == 'value' and not any(u in f[1] for u in ('div(', 'f(', 'i(-', 'c(opposite', 'c(real', 'c(conj')):
+                le = lean_eval.get(s)
+                if le is not None and le.startswith('ok|'):
+                    _, lshape, lind, lvals = le.split('|')
+                    want = [x for x in model_val[1].flat]
+                    if all(Fraction(x).denominator == 1 and abs(x) < 2**62 for x in want):
+                        c.count('lean-evalOps-compared')
+                        if lshape.split() != [str(n) for n in model_val[1].shape] or lind != f[3] or [int(v) for v in lvals.split()] != [int(x) for x in want]:
+                            pending.append(('corr:lean-evalOps', 'Lean evalOps on integer data differs from the exact evaluation of the op tree', dict(string=s, lean=le, want=[str(x) for x in want], model=a)))
         # --- the real code
         if how == 'set':
             letters = f[3] if f[0] == 'ok' else (''.join(spec[1].labels) if spec and spec[0] == 'value' else rng.choice(['', 'i', 'ij']))
@@ -527,9 +537,14 @@ def run(c):
     reqs = [request(entry, vars_f, fns_f, s) for _, entry, s in cases]
     reqs += [request('expr', ctx_field(const.var_shapes), ctx_field(const.fn_shapes), s) for _, _, s in sem_const]
     reqs += [request('expr', ctx_field(sided.var_shapes), ctx_field(sided.fn_shapes), s) for _, _, s in sem_sided]
+    data_f = ' '.join('%s:%s:%s' % (k, ','.join(map(str, v.shape)), ','.join(str(int(x)) for x in v.flat)) for k, v in ctx.vars.items())
+    eval_strings = sorted(set(s for _, _, s in sem_const))
+    reqs += ['eval|%s|%s|%s' % (data_f, ctx_field(const.fn_shapes), ' '.join(str(ord(ch)) for ch in s)) for s in eval_strings]
     c.log('requests: %d parser strings (%d ASTs), %d + %d namespace strings' % (len(cases), len(asts), len(sem_const), len(sem_sided)))
     allans = c.model(reqs)
-    ans = allans[:len(cases)]; ans_const = allans[len(cases):len(cases) + len(sem_const)]; ans_sided = allans[len(cases) + len(sem_const):]
+    ans = allans[:len(cases)]; ans_const = allans[len(cases):len(cases) + len(sem_const)]
+    ans_sided = allans[len(cases) + len(sem_const):len(cases) + len(sem_const) + len(sem_sided)]
+    lean_eval = dict(zip(eval_strings, allans[len(cases) + len(sem_const) + len(sem_sided):]))
     c.log('model answered')
     bad = [a for a in allans if a.startswith('bad-request')]
     if bad: raise Infra('driver rejected a request')
@@ -549,7 +564,7 @@ def run(c):
     c.obligation('corr:v2-parser-optree-and-errors', nbad == 0, 'correspondence', '%d strings, %d mismatches' % (len(cases), nbad))
     c.log('stream 1 (parser vs Lean port): %d strings, %d mismatches' % (len(cases), nbad))
 
-    f2, p2 = semantic_stream(c, const, sem_const, ans_const, rng)
+    f2, p2 = semantic_stream(c, const, sem_const, ans_const, rng, lean_eval)
     c.log('stream 2 (v2 namespace, constants): %d strings, %d failing inputs, %d model disagreements' % (len(sem_const), f2, len(p2)))
     f3, p3 = semantic_stream(c, sided, sem_sided, ans_sided, rng)
     c.log('stream 3 (v2 namespace, mesh): %d strings, %d failing inputs, %d model disagreements' % (len(sem_sided), f3, len(p3)))
